@@ -17,7 +17,24 @@ use crate::bind::{RunOpts, front_end, run_generated};
 use crate::corpus::harvest;
 use crate::pool::Pool;
 
-const STDINS: &[&str] = &["", "1\n", "abc\n", "1,2\n", "\n", "1.5,\"q\"\r\nx y\n"];
+/// The console input menu: ordinary lines, and arbitrary bytes (not UTF-8, NUL, a long line,
+/// numbers the conversions cannot hold).
+const STDINS: &[&[u8]] = &[
+    b"",
+    b"1\n",
+    b"abc\n",
+    b"1,2\n",
+    b"\n",
+    b"1.5,\"q\"\r\nx y\n",
+    b"\xff\n",
+    b"a\xc3\n\x80b,\xfe\n",
+    b"\x00\x01\x02\n",
+    b"1e999,-1e999\n",
+    b"99999999999999999999,-\n",
+    b" 12 , &H10\n",
+    b"1,2,3,4,5,6,7,8\n9\n10\n",
+    b"aaaaaaaaaaaaaaaaaaaaaaaaaaaaaaaaaaaaaaaaaaaaaaaaaaaaaaaaaaaaaaaaaaaaaaaaaaaaaaaaaaaaaaaaaaaaaaaaaaaaaaaaaaaaaaaaaaaaaaaaaaaaaaaaaaaaaaaaaaaaaaaaaaaaaaaaaaaaaaaaaaaaaaaaaaaaaaaaaaaaaaaaaaaaaaaaaaaaaaaaaaaaaaaaaaaaaaaaaaaaaaaaaaaaaaaaaaaaaaaaaaaaaaaaaaaaaaaaaaaaaaaaaaaaaaaaaaaa",
+];
 
 fn reads_console(text: &str) -> bool {
     let up = text.to_ascii_uppercase();
@@ -36,7 +53,7 @@ fn may_loop(text: &str) -> bool {
 }
 
 /// Judges one accepted-or-not text. Returns (class, Option<(sig, summary)>).
-pub fn judge(text: &str, stdin: &str) -> (String, Option<(String, String)>) {
+pub fn judge(text: &str, stdin: &[u8]) -> (String, Option<(String, String)>) {
     let (igr, types) = match front_end(text) {
         Err(end) => {
             return match &end {
@@ -56,7 +73,7 @@ pub fn judge(text: &str, stdin: &str) -> (String, Option<(String, String)>) {
         Ok(x) => x,
     };
     let opts = RunOpts {
-        stdin: stdin.as_bytes().to_vec(),
+        stdin: stdin.to_vec(),
         budget: 300_000,
         collect_files: true, // also empties the scratch directory before the run
         ..RunOpts::default()
@@ -103,7 +120,7 @@ pub fn worker(case: &Value) -> Value {
     let mut nontrivial = 0u64;
     for t in &texts {
         let text = t.as_str().unwrap_or("");
-        let stdins: Vec<&str> = if reads_console(text) { STDINS.to_vec() } else { vec![""] };
+        let stdins: Vec<&[u8]> = if reads_console(text) { STDINS.to_vec() } else { vec![b""] };
         for stdin in stdins {
             let (class, bad) = judge(text, stdin);
             n += 1;
@@ -116,9 +133,9 @@ pub fn worker(case: &Value) -> Value {
             {
                 bads.push(json!({
                     "sig": sig,
-                    "summary": format!("{} — stdin {:?} — text: {:?}", summary, stdin, truncate_text(text, 300)),
+                    "summary": format!("{} — stdin {:?} — text: {:?}", summary, vcore::outcome::latin1(stdin), truncate_text(text, 300)),
                     "text": text,
-                    "stdin": stdin,
+                    "stdin": vcore::outcome::latin1(stdin),
                     "case": {"texts": [text]},
                 }));
             }
@@ -271,7 +288,7 @@ pub fn drive(tier: &str) -> i32 {
     ev.set("groups", json!(reports));
     ev.set("samples", json!(samples));
     ev.set("programs_executed", ran);
-    ev.set("stdin_menu", json!(STDINS));
+    ev.set("stdin_menu", json!(STDINS.iter().map(|b| vcore::outcome::latin1(b)).collect::<Vec<_>>()));
     ev.assume("INKEY$ programs are excluded (they poll the real terminal)");
     ev.assume("an exhausted instruction budget counts as a violation only for programs without loops, jumps or subprograms");
     run.finish(ev)
